@@ -1,5 +1,6 @@
 import CopVerif.Base.FloatIO
 import CopVerif.Model.Rng
+import CopVerif.Model.DatasetShape
 /-!
 Driver for the RNG-protocol model (C15): runs a history in the free term algebra and prints, after
 every op, the term of the global generator, of every model's `random_state`, of every
@@ -16,6 +17,9 @@ Request  `rng run <n> <cls_0> … <cls_{n-1}> T <cls>=<0|1> … H <op> …`
 Reply    `ok` then per op: `| g=<term> m0=<term|-> … c0=<term> … r=<-|X|ok:<term>/<key>;…>`
          a term is `root.d1.d2…` (root 0 = prior global state, s+1 = fromSeed s).
 Request  `rng table [repaired]` → `ok <cls>=<0|1> …` (the expected decorator table).
+Request  `rng shape <name> <size>` → `ok rows=<n|none> cols=<k> draws=<kind>:<count|s>,…|-`: rows / columns /
+         draw requests (in order; `s` = scalar draw) of `DatasetShape.prog name size`; for `univariates` the
+         rows are `univariatesRows size` and the draws those of its seven columns in source order.
 -/
 namespace CopVerif.Driver
 open CopVerif.Model.Rng
@@ -111,8 +115,30 @@ def runHistory (cfg : Config) (n : Nat) (ops : List SOp) : Option (List String) 
         go r.1 callers' (showWorld n callers' r.1 r.2 :: acc) rest
   go (World.init ⟨0, []⟩) [] [] ops
 
+def showOptNat : Option Nat → String
+  | some n => toString n
+  | none => "none"
+
+def showDrawReqs (ds : List DrawReq) : String :=
+  if ds.isEmpty then "-" else
+  ",".intercalate (ds.map fun d => toString d.kind ++ ":" ++ (match d.count with | some n => toString n | none => "s"))
+
+/-- shape-level evaluation of one dataset generator (model `DatasetShape`). -/
+def shape (name : String) (size : Nat) : String :=
+  open CopVerif.Model.DatasetShape in
+  if name == "univariates" then
+    s!"ok rows={showOptNat (univariatesRows size)} cols={univariatesColumns.length} draws=" ++
+      showDrawReqs (univariatesColumns.flatMap fun n => (prog n size).draws)
+  else
+    let p := prog name size
+    s!"ok rows={showOptNat p.rows} cols={p.cols.length} draws=" ++ showDrawReqs p.draws
+
 def rng (ws : List String) : String :=
   match ws with
+  | ["shape", name, size] =>
+    match size.toNat? with
+    | some n => shape name n
+    | none => "bad-op"
   | ["table"] => "ok " ++ showTable asFoundTable
   | ["table", "repaired"] => "ok " ++ showTable repairedTable
   | "run" :: n :: rest =>
